@@ -339,10 +339,14 @@ func (t *TempoController) Search(w http.ResponseWriter, r *http.Request) {
 		i := 0
 		for traces := range ch {
 			for _, trace := range traces {
+				strTrace, err := json.Marshal(trace)
+				if err != nil {
+					fmt.Println(err)
+					continue
+				}
 				if i != 0 {
 					w.Write([]byte(","))
 				}
-				strTrace, _ := json.Marshal(trace)
 				w.Write(strTrace)
 				i++
 			}
